@@ -251,6 +251,12 @@ type sysOutcome struct {
 
 func runQuerySystem(rng *hx.Rng, n int, lastRand, reqID, seed *big.Int, pType uint32, byz map[int]byzKind,
 	lateStart map[int]time.Duration, deadline time.Duration) (sysOutcome, [][]byte, []*big.Int) {
+	return runQuerySystemWith(rng, n, lastRand, reqID, seed, pType, byz, lateStart, deadline, nil)
+}
+
+// extra: additional raw messages thrown at the submitter's collector by an outsider
+func runQuerySystemWith(rng *hx.Rng, n int, lastRand, reqID, seed *big.Int, pType uint32, byz map[int]byzKind,
+	lateStart map[int]time.Duration, deadline time.Duration, extra func(send func(*vss.Signature))) (sysOutcome, [][]byte, []*big.Int) {
 	t := n/2 + 1
 	coeffs := randCoeffs(rng, t, BnQ)
 	if coeffs[t-1].Sign() == 0 {
@@ -350,6 +356,9 @@ func runQuerySystem(rng *hx.Rng, n int, lastRand, reqID, seed *big.Int, pType ui
 		case ch <- p2p.P2PMessage{Msg: ptypes.DynamicAny{Message: proto.Clone(m)}, Sender: ids[from]}:
 		case <-time.After(time.Second):
 		}
+	}
+	if extra != nil {
+		extra(func(m *vss.Signature) { send(0, m) })
 	}
 	for b, kind := range byz {
 		if b == subIdx {
